@@ -210,6 +210,7 @@ func cmdCheck(args []string) {
 			trustedFns = append(trustedFns, k+" (trusted, body not verified: "+s.Trusted+")")
 		}
 	}
+	usedLemmas := map[string]bool{}
 	for _, k := range keys {
 		g := w.verifyFunc(k)
 		for _, o := range g.obls {
@@ -227,6 +228,22 @@ func cmdCheck(args []string) {
 		for a := range g.usedInlined {
 			inlined[a] = true
 		}
+		for l := range g.usedLemmas {
+			usedLemmas[l] = true
+		}
+	}
+	// lemmas proved by induction are part of the argument of every function that uses them
+	var lemmaKeys []string
+	for l := range usedLemmas {
+		if lm := w.lemmas[l]; lm != nil && lm.Induct != "" {
+			lemmaKeys = append(lemmaKeys, l)
+		}
+	}
+	sort.Strings(lemmaKeys)
+	for _, l := range lemmaKeys {
+		g := w.verifyLemma(w.lemmas[l])
+		obls = append(obls, g.obls...)
+		keys = append(keys, "lemma."+l)
 	}
 	timeout := 10
 	all := false
